@@ -202,7 +202,7 @@ def _create_net_hot_and_cold_stream_collections_for_site_analysis(
         # If no utility is needed, there is no net streams for indirect integration. 
         return net_hot_streams, net_cold_streams
     
-    if delta_vals(T_vals).min() < tol:
+    if delta_vals(T_vals).min() < tol / 2:
         raise ValueError("Infeasible temperature interval detected in _store_TSP_data")
 
     T_vals = T_vals
